@@ -14,3 +14,16 @@ claimed["C09"] = (
  "All 91 two-operation programs (quick: preemption bound 1, bound 2 for 12 core pairs; thorough: bound 2/3 and all 455 three-operation programs at bound 1) over a 13-operation alphabet on one shared provider; every execution is checked for data races on godi's struct fields (vector clocks over mutex/RWMutex/atomic/sync.Map/spawn/join/cancel edges), panics, deadlocks, undocumented errors and lifetime-rule breaches.",
  "bounds as stated; races inside user values, reflect, context are out of scope of the detector; the free-running -race pass is not part of the verdict",
  "DESIGN.md 6/C09")
+_life_note = "bounds: <=2 producer templates per configuration; histories to depth 3/4 on <=3 scopes; 2-3 resolver goroutines, preemption bound 2/3"
+claimed["C01"] = (
+ "exhaustive configuration + history enumeration on the real container and preemption-bounded schedule exploration, invariant oracle over a recorder of every constructor invocation",
+ "Singleton lifetime: constructor invocation count == 1 (at Build) and identity of every hand-out (results and constructor arguments, by type/key/group/alias, from provider / scope / child scope) checked on every configuration of the form space, every history to depth 3/4 over a 16-registration container and every schedule (bound 2/3) of concurrent resolutions colliding on the same singleton identities.",
+ _life_note, "DESIGN.md 6/C01")
+claimed["C02"] = (
+ "exhaustive configuration + history enumeration on the real container and preemption-bounded schedule exploration, invariant oracle over a recorder of every constructor invocation",
+ "Scoped lifetime: <=1 successful construction per (registration, scope), identical hand-outs within a scope, no instance crossing scopes, initializers exactly once per created scope - on every configuration, history (depth 3/4, scope trees of <=3 scopes + root) and schedule (2-3 goroutines resolving the same scoped service directly / through a dependent / through its group / through its second output, with and without a failing first construction).",
+ _life_note, "DESIGN.md 6/C02")
+claimed["C03"] = (
+ "exhaustive configuration + history enumeration on the real container, invariant oracle over a recorder of every constructor invocation",
+ "Transient lifetime: every transient instance handed out exactly once (as a result or as a constructor argument) and every successful construction delivered - on every configuration, every history to depth 3/4 (transients consumed by singletons at Build, by scoped services, by other transients, twice by one constructor, through groups and keys) and concurrent resolutions.",
+ _life_note, "DESIGN.md 6/C03")
